@@ -10,6 +10,7 @@ mod ops;
 mod rng;
 mod sweep;
 mod util;
+mod watchdog;
 
 use std::collections::BTreeMap;
 use util::J;
@@ -94,6 +95,7 @@ fn main() {
     let code = match args.cmd.as_str() {
         "model" => engine_model::main(&args),
         "replay" => engine_model::replay_main(&args),
+        "shrink" => engine_model::shrink_main(&args),
         _ => {
             eprintln!("usage: fjv <model|replay|...> [--key value]...");
             2
